@@ -190,4 +190,111 @@ func genCorpus2(o *c.Out) {
 			})
 		}
 	}
+	genCorpusFilters(o)
+}
+
+// quota filters: the release on the response is selected through the quota's
+// own filter, and the provider's response does not repeat the request's headers
+// (nor its query string): every filter shape x every flow shape x every end.
+func genCorpusFilters(o *c.Out) {
+	eng := func(cfg EngCfg, f func(er *engRun)) {
+		k := &EngCase{Cfg: cfg}
+		er := startEng(k)
+		f(er)
+		finishEng(o, er)
+	}
+	gold := []KV{{"X-Plan", "gold"}}
+	type fshape struct {
+		tag     string
+		rows    []QRow
+		filters []QFilter
+		req     SAttr
+	}
+	r1 := QRow{Max: 1, TTLSec: 2, GCSec: 2, Parent: -1}
+	fshapes := []fshape{
+		{"headers", []QRow{r1}, []QFilter{{Headers: gold}}, SAttr{Method: "GET", Hdr: []KV{{"x-plan", "gold"}}}},
+		{"header-alternatives+second-header", []QRow{r1}, []QFilter{{Headers: []KV{{"X-Plan", "gold"}, {"X-Plan", "silver"}, {"x-tenant", "t1"}}}},
+			SAttr{Method: "GET", Hdr: []KV{{"x-plan", "silver"}, {"x-tenant", "t1"}}}},
+		{"methods", []QRow{r1}, []QFilter{{Methods: []string{"POST", "GET"}}}, SAttr{Method: "POST"}},
+		{"query", []QRow{r1}, []QFilter{{Query: []KV{{"tier", "pro"}}}}, SAttr{Method: "GET", Query: []KV{{"tier", "pro"}}}},
+		{"narrower-url+headers+methods+query", []QRow{r1}, []QFilter{{Path: "a", Methods: []string{"GET"}, Headers: gold, Query: []KV{{"tier", "pro"}}}},
+			SAttr{Method: "GET", Path: "a", Hdr: []KV{{"x-plan", "gold"}}, Query: []KV{{"tier", "pro"}}}},
+		{"child-with-own-url-and-header", []QRow{{Max: 2, TTLSec: 2, GCSec: 2, Parent: -1}, {Max: 1, TTLSec: 2, GCSec: 2, Parent: 0}},
+			[]QFilter{{Methods: []string{"GET"}}, {Path: "a", Headers: gold}}, SAttr{Method: "GET", Path: "a", Hdr: []KV{{"x-plan", "gold"}}}},
+		{"child-own-url-and-header-under-parent-header", []QRow{{Max: 2, TTLSec: 2, GCSec: 2, Parent: -1}, {Max: 1, TTLSec: 2, GCSec: 2, Parent: 0}},
+			[]QFilter{{Headers: []KV{{"x-tenant", "t1"}}}, {Path: "a", Headers: gold}},
+			SAttr{Method: "GET", Path: "a", Hdr: []KV{{"x-plan", "gold"}, {"x-tenant", "t1"}}}},
+		{"parent-alternatives(X-Plan)-child-narrows(x-plan)-two-key-groups", []QRow{{Max: 2, TTLSec: 2, GCSec: 2, Parent: -1}, {Max: 1, TTLSec: 2, GCSec: 2, Parent: 0}},
+			[]QFilter{{Headers: []KV{{"X-Plan", "gold"}, {"X-Plan", "silver"}}}, {Headers: []KV{{"x-plan", "gold"}}}},
+			SAttr{Method: "GET", Hdr: []KV{{"x-plan", "silver"}}}},
+		{"parent-with-header-child-shares-it", []QRow{{Max: 2, TTLSec: 2, GCSec: 2, Parent: -1}, {Max: 1, TTLSec: 2, GCSec: 2, Parent: 0}},
+			[]QFilter{{Headers: gold}, {}}, SAttr{Method: "GET", Hdr: []KV{{"x-plan", "gold"}}}},
+	}
+	for _, sh := range fshapes {
+		for _, flow := range []string{"limiter,flow-filter-same", "limiter,flow-filter-host", "unreferenced(system-start-inc)"} {
+			for _, end := range []string{"response", "response-echo", "early", "error", "abandon"} {
+				sh, flow, end := sh, flow, end
+				leaf := len(sh.rows) - 1
+				cfg := EngCfg{Cfg: Cfg{Rows: append([]QRow(nil), sh.rows...), OneFile: true, Filters: sh.filters},
+					Limiter: leaf, Limiter2: -1, Style: "chain", Chain: []int{leaf}, OnRefusal: "429"}
+				switch flow {
+				case "limiter,flow-filter-same":
+					cfg.FlowFilter = "same"
+				case "unreferenced(system-start-inc)":
+					// the flow consults a rate quota only: the concurrency quotas take their slots in their system start flow
+					cfg.Foreign = 1
+					cfg.Chain = []int{len(sh.rows)}
+				}
+				if end == "early" && flow == "unreferenced(system-start-inc)" && false {
+					continue
+				}
+				eng(cfg, func(er *engRun) {
+					o.Count(fmt.Sprintf("eng:corpus-filters %s / %s / %s", sh.tag, flow, end))
+					req := func(r int, ask, probe bool) {
+						a := sh.req
+						er.do(EStep{Kind: "req", R: r, Seq: r, Ask: ask, Probe: probe, At: &a})
+					}
+					resp := func(r int, echo bool) {
+						a := SAttr{Method: sh.req.Method, Path: sh.req.Path, Hdr: []KV{{"content-type", "application/json"}}}
+						if echo {
+							a.Hdr = append(a.Hdr, sh.req.Hdr...)
+						}
+						er.do(EStep{Kind: "resp", R: r, Seq: r, At: &a})
+					}
+					switch end {
+					case "early":
+						req(0, true, false)
+					case "response":
+						req(0, false, false)
+						req(1, false, false) // refused: the quota is full
+						resp(0, false)       // the provider's response does not repeat x-plan / the query string
+					case "response-echo":
+						req(0, false, false)
+						resp(0, true)
+					case "error":
+						req(0, false, false)
+						er.do(EStep{Kind: "err", R: 0, Seq: 0})
+					case "abandon":
+						req(0, false, false)
+					}
+					req(2, false, false) // admitted iff the slot of transaction 0 is free
+					resp(2, false)
+					// a request outside the filter: its LAST header (for a child limit: a requirement that
+					// comes from the parent) or its query string is missing; then its response
+					if out := sh.req; len(out.Hdr) > 0 || len(out.Query) > 0 {
+						if len(out.Hdr) > 0 {
+							out.Hdr = append([]KV(nil), out.Hdr[:len(out.Hdr)-1]...)
+						} else {
+							out.Query = nil
+						}
+						er.do(EStep{Kind: "req", R: 3, Seq: 3, At: &out})
+						resp(3, false)
+					}
+					er.do(EStep{Kind: "adv", Dt: 5 * sec})
+					req(100, false, true)
+					req(101, false, true)
+				})
+			}
+		}
+	}
 }
